@@ -59,7 +59,7 @@ fn result_text(v: &Value) -> Option<String> { v["result"]["content"][0]["text"].
 
 pub fn run(ctx: &mut Ctx) {
     let prop = "C20";
-    ctx.ev.rule = "generated sessions of 4–14 JSON-RPC requests over the five tools and the resource methods (valid ledgers, uncovered ledgers, garbage text, wrong argument types, missing fields, unknown tools, bad currencies/months, unknown resource URIs), each run pipelined (all lines written at once, handled concurrently) and one at a time, against the real `cgt-tool mcp` process: every request id gets exactly one response (result or JSON-RPC error), no other ids appear, the server exits 0 when its input closes; the same request gives the same answer at any position, in either mode; calculate_report's JSON equals `cgt-tool report --format json` for the same text (tax years and holdings); every disposal it lists is explained by explain_matching with the legs the CLI reports (rule, exact quantity, acquisition date, cost and gain to the penny; the first session always carries a ledger whose 30-day matches cross 5 April and 31 December, and a ledger with disposals on 5 and 6 April of leap and ordinary years, 29 February and the calendar-year ends). Known-finding classes mcpUndecodable (D15) and overflowMagnitude (D9) are probed once per run and not mixed into the sessions. Non-trivial = sessions with ≥ 1 failing request followed by a succeeding one; distinct by request list.".into();
+    ctx.ev.rule = "generated sessions of 4–14 JSON-RPC requests over the five tools and the resource methods (valid ledgers, uncovered ledgers, garbage text, wrong argument types, missing fields, unknown tools, bad currencies/months, unknown resource URIs), each run pipelined (all lines written at once, handled concurrently) and one at a time, against the real `cgt-tool mcp` process: every request id gets exactly one response (result or JSON-RPC error), no other ids appear, the server exits 0 when its input closes; the same request gives the same answer at any position, in either mode; calculate_report's JSON equals `cgt-tool report --format json` for the same text (tax years and holdings); every disposal it lists is explained by explain_matching with the legs the CLI reports (rule, exact quantity, acquisition date, cost and gain to the penny; the first session always carries a ledger whose 30-day matches cross 5 April and 31 December, and a ledger with disposals on 5 and 6 April of leap and ordinary years, 29 February and the calendar-year ends). Two sessions of 12–30 failing requests followed by good ones must answer the good ones as a fresh session does. Known-finding classes mcpUndecodable (D15) and overflowMagnitude (D9) are probed once per run and not mixed into the sessions. Non-trivial = sessions with ≥ 1 failing request followed by a succeeding one; distinct by request list.".into();
     if !cli::available() { ctx.ev.notes.push("cgt-tool binary not found: nothing checked".into()); ctx.ev.violation("correspondence", "cgt-tool binary missing".into(), "# property C20\n".into()); return; }
     let mut r = Rng::new(ctx.seed ^ 0xC20);
     let mut cfg = GenCfg::standard();
@@ -198,6 +198,42 @@ pub fn run(ctx: &mut Ctx) {
             let _ = &explain;
         }
         if si == 0 { ctx.ev.sample(json!({"session": reqs})); }
+    }
+    // a long run of failures must leave no trace: 12–30 failing requests of every kind (unparsable and empty
+    // ledgers, uncovered sales, unknown disposals, wrong argument types) to calculate_report and
+    // explain_matching, then the same good requests as in a fresh session — same answers, equal to the CLI's
+    {
+        let good = "2023-01-10 BUY ACME 100 @ 10\n2023-06-01 SELL ACME 40 @ 15\n".to_string();
+        let fresh = session(&[call(1, "calculate_report", json!({"transactions": good})), call(2, "explain_matching", json!({"transactions": good, "ticker": "ACME", "disposal_date": "2023-06-01"}))], false);
+        let answer = |s: &Session, id: u64| s.responses.iter().find(|v| v["id"].as_u64() == Some(id)).map(|v| result_text(v).unwrap_or_else(|| format!("error {}", v["error"]["message"].as_str().unwrap_or(""))));
+        let mut rr = Rng::new(ctx.seed ^ 0xC20F);
+        for pipelined in [false, true] {
+            let n = 12 + rr.below(19);
+            let mut reqs = Vec::new();
+            for k in 0..n {
+                let id = 3000 + k;
+                reqs.push(match rr.below(6) {
+                    0 => call(id, "calculate_report", json!({"transactions": "this is not a ledger"})),
+                    1 => call(id, "calculate_report", json!({"transactions": ""})),
+                    2 => call(id, "explain_matching", json!({"transactions": "garbage", "ticker": "A", "disposal_date": "2024-01-01"})),
+                    3 => call(id, "explain_matching", json!({"transactions": "", "ticker": "A", "disposal_date": "2024-01-01"})),
+                    4 => call(id, "calculate_report", json!({"transactions": "2024-01-01 SELL ACME 5 @ 1\n"})),
+                    _ => call(id, "explain_matching", json!({"transactions": good, "ticker": "NOPE", "disposal_date": "2023-06-01"})),
+                });
+            }
+            reqs.push(call(4001, "calculate_report", json!({"transactions": good})));
+            reqs.push(call(4002, "explain_matching", json!({"transactions": good, "ticker": "ACME", "disposal_date": "2023-06-01"})));
+            ctx.ev.evaluations += 1;
+            ctx.ev.count("sessions:failures-then-success");
+            let s = session(&reqs, pipelined);
+            for (late, early) in [(4001u64, 1u64), (4002, 2)] {
+                let (a, b) = (answer(&s, late), answer(&fresh, early));
+                if a.is_none() || a != b || a.as_deref().map(|x| x.starts_with("error")).unwrap_or(true) {
+                    ctx.ev.violation("oracle", format!("after {n} failing requests a good request is answered differently than in a fresh session: {} vs {}", a.as_deref().unwrap_or("no answer").lines().next().unwrap_or(""), b.as_deref().unwrap_or("no answer").lines().next().unwrap_or("")), format!("# property C20\n# session ({}): {n} failing requests, then the good ones\n{}\n", if pipelined { "pipelined" } else { "one at a time" }, reqs.iter().map(|v| v.to_string()).collect::<Vec<_>>().join("\n")));
+                    break;
+                }
+            }
+        }
     }
     // every malformed-JSON spelling through every text-taking tool, in one pipelined session
     {
